@@ -192,22 +192,34 @@ Section Calc.
     | (s, v) :: r, O => (s, f v) :: r
     | o :: r, S k => o :: update_nth k f r
     end.
-  Definition merge_changes (idx : option nat) (changes : list value) (outs : list output) : list output :=
+  (* _merge_changes: changes that are not merged although merge_change is set were computed without the
+     minimum-ADA check and must pass it now (fix commit f703c57) *)
+  Definition merge_changes (merge : bool) (idx : option nat) (changes : list value) (outs : list output)
+    : cc_err + list output :=
     match idx, changes with
-    | Some i, [c] => update_nth i (fun v => v_add c v) outs
-    | _, _ => outs ++ map (fun c => (true, c)) changes
+    | Some i, [c] => inr (update_nth i (fun v => v_add c v) outs)
+    | _, _ => if merge && existsb (fun c => coin c <? minada c) changes then inl ErrInsufficient
+              else inr (outs ++ map (fun c => (true, c)) changes)
+    end.
+
+  (* one pass: _calc_change at the given fee, then _merge_changes *)
+  Definition acf_pass (st : bstate) (merge : bool) (idx : option nat) (fee : Z) (ins : list value) (outs : list output)
+    : cc_err + list output :=
+    match calc_change st (negb merge) fee ins (map snd outs) with
+    | inl e => inl e
+    | inr chs => merge_changes merge idx chs outs
     end.
 
   (* with the two fee estimates given *)
   Definition acf_with (st : bstate) (merge : bool) (ins : list value) (outs : list output) (fee1 fee2 : Z)
     : cc_err + (list output * Z) :=
     let idx := if merge then find_idx 0 None outs else None in
-    match calc_change st (negb merge) fee1 ins (map snd outs) with
+    match acf_pass st merge idx fee1 ins outs with
     | inl e => inl e
     | inr _ =>
-        match calc_change st (negb merge) fee2 ins (map snd outs) with
+        match acf_pass st merge idx fee2 ins outs with
         | inl e => inl e
-        | inr ch2 => inr (merge_changes idx ch2 outs, fee2)
+        | inr outs2 => inr (outs2, fee2)
         end
     end.
 
@@ -217,13 +229,13 @@ Section Calc.
              (outs : list output) (fee0 : Z) : cc_err + (list output * Z) :=
     let idx := if merge then find_idx 0 None outs else None in
     let fee1 := est outs fee0 in
-    match calc_change st (negb merge) fee1 ins (map snd outs) with
+    match acf_pass st merge idx fee1 ins outs with
     | inl e => inl e
-    | inr ch1 =>
-        let fee2 := est (merge_changes idx ch1 outs) fee1 in
-        match calc_change st (negb merge) fee2 ins (map snd outs) with
+    | inr outs1 =>
+        let fee2 := est outs1 fee1 in
+        match acf_pass st merge idx fee2 ins outs with
         | inl e => inl e
-        | inr ch2 => inr (merge_changes idx ch2 outs, fee2)
+        | inr outs2 => inr (outs2, fee2)
         end
     end.
 End Calc.
@@ -283,10 +295,11 @@ Definition out_size (addr : bytes) (v : value) : N := 3 + lenN (enc (CB addr)) +
 Definition minada_c (cpb : Z) (addr : bytes) (v : value) : Z :=
   let v' := if coin v =? 0 then mkValue 1000000 (massets v) else v in
   (160 + Z.of_N (out_size addr v')) * cpb.
-(* len (amount with coin := its min ADA).to_cbor () > max_val_size — the test of
-   _adding_asset_make_output_overflow and of the final re-check in _pack_tokens_for_change *)
-Definition ovf_c (cpb : Z) (addr : bytes) (mvs : Z) (v : value) : bool :=
-  mvs <? Z.of_N (lenN (value_cbor (mkValue (minada_c cpb addr v) (massets v)))).
+(* len (amount with coin := max (its min ADA, maxc)).to_cbor () > max_val_size — the test of
+   _adding_asset_make_output_overflow and of the final re-check in _pack_tokens_for_change; maxc is the whole
+   change ADA, the most the output can receive (fix commit c8b4af1; before it the coin was the min ADA, i.e. maxc = 0) *)
+Definition ovf_c (cpb : Z) (addr : bytes) (mvs : Z) (maxc : Z) (v : value) : bool :=
+  mvs <? Z.of_N (lenN (value_cbor (mkValue (Z.max (minada_c cpb addr v) maxc) (massets v)))).
 
 (* ---- _pack_tokens_for_change (txbuilder.py:811-876) over an arbitrary size test ---- *)
 Section Pack.
@@ -341,7 +354,7 @@ Section Pack.
 End Pack.
 
 Definition pack_c (cpb : Z) (addr : bytes) (mvs : Z) (change : value) : option (list masset) :=
-  pack_model (ovf_c cpb addr mvs) change.
+  pack_model (ovf_c cpb addr mvs (coin change)) change.
 
 (* ================================================================= notions used by the theorems *)
 Definition covers (arr : list masset) (m : masset) : Prop := forall p n, sum_content arr p n = content m p n.
